@@ -77,7 +77,7 @@ def shapes():
         S.append((f'pad{k}', lambda i, n, k=k: ('pad', k)))
     for kind in ('adjacent', 'gap', 'overlap0', 'unaligned', 'walign', 'huge', 'top'):
         S.append((f'seg-{kind}', lambda i, n, kind=kind: ('segment', kind)))
-    for kind, tree in (('w', W_), ('2w', ('*', 2, W_)), ('lazy', ('*', 1002, W_)), ('half', ('/', W_, 2))):
+    for kind, tree in (('w', W_), ('2w', ('*', 2, W_)), ('lazy', ('*', 1002, W_)), ('half', ('/', W_, 2)), ('neg', ('-', 0, ('*', 2, W_))), ('zero', ('-', W_, W_))):
         S.append((f'res-{kind}', lambda i, n, tree=tree: ('reserve', tree)))
     return S
 
@@ -171,6 +171,8 @@ def denote(seq, w):
                 size = ev(ab[1], dict(consts, **labels))
                 if size % w:
                     raise Impossible('reserve size is not w-aligned')
+                if size < 0:
+                    raise Impossible('a negative reserve (the address would move backwards, over what precedes it)')
                 if size:
                     reserves.append((cur, cur + size))
                 cur += size
